@@ -29,7 +29,7 @@ func init() { core.Register(c02{}) }
 
 func (c02) ID() string { return "C02" }
 func (c02) Rule() string {
-	return "plans: one signature (JWS/COSE, notary.x509 or signing-authority, optional verification-plugin / minimum-version / other critical extended attributes through notation-core-go's SignRequest) and one situation = trust anchor {found, not found, store load error} x identity {wildcard, exact leaf subject, unrelated} x expiry {none, future, past on the sim clock} x certificate time {valid, leaf expired on the sim clock} x revocation script {OK, revoked, unknown, validator error} x plugin {none, manager nil, not installed, too old, invalid version, no capability, metadata error, trusted-identity, revocation, both} x verdicts {success, failure, missing} x plugin call error x critical attributes {none, processed, unprocessed}; verified at the same sim instant by three replicas (strict, permissive, audit) with the same legal overrides (24 enforcement maps). The first 200 plans of a batch are stratified over the factor levels. non-trivial: at least one validation failed or a plugin was involved; distinct: hash of (situation, enforcement map, verdicts)"
+	return "plans: one signature (JWS/COSE, notary.x509 or signing-authority, optional verification-plugin / minimum-version / other critical extended attributes through notation-core-go's SignRequest) and one situation = trust anchor {found, not found, store load error, found in one listed store while another listed store cannot be loaded} x identity {wildcard, exact leaf subject, unrelated} x expiry {none, future, past on the sim clock} x certificate time {valid, leaf expired on the sim clock} x revocation script {OK, revoked, unknown, validator error} x plugin {none, manager nil, not installed, too old, invalid version, no capability, metadata error, trusted-identity, revocation, both} x verdicts {success, failure, missing} x plugin call error x critical attributes {none, processed, unprocessed}; verified at the same sim instant by three replicas (strict, permissive, audit) with the same legal overrides (24 enforcement maps). The first 200 plans of a batch are stratified over the factor levels. In a share of the runs the same verifier has already verified the signature once while another build of the plugin was installed (upgrade / downgrade / reinstall in between). non-trivial: at least one validation failed or a plugin was involved; distinct: hash of (situation, enforcement map, verdicts)"
 }
 func (c02) Components() map[string]string {
 	return map[string]string{
@@ -44,7 +44,7 @@ func (c02) Components() map[string]string {
 var c02Factors = []struct {
 	name string
 	n    int64
-}{{"base", 3}, {"bits", 256}, {"anchor", 3}, {"identity", 3}, {"expiry", 3}, {"certTime", 2}, {"revocation", 4}, {"plugin", 10},
+}{{"base", 3}, {"bits", 256}, {"anchor", 4}, {"identity", 3}, {"expiry", 3}, {"certTime", 2}, {"revocation", 4}, {"plugin", 10},
 	{"vIdentity", 3}, {"vRevocation", 3}, {"callErr", 2}, {"crit", 3}, {"scheme", 2}, {"format", 2}, {"legacy", 2}, {"pver", 6}, {"prelude", 6}}
 
 func (c02) Gen(r *rand.Rand, tier string, idx int) *core.Plan {
@@ -73,7 +73,7 @@ func (c02) Gen(r *rand.Rand, tier string, idx int) *core.Plan {
 	if r.IntN(2) == 0 {
 		w["bits"] = r.Int64N(256)
 	}
-	w["anchor"] = healthy(3, 60)
+	w["anchor"] = healthy(4, 60)
 	w["identity"] = healthy(3, 50)
 	w["expiry"] = healthy(3, 40)
 	w["certTime"] = healthy(2, 70)
@@ -170,6 +170,9 @@ func (l c02) Exec(env *core.Env) *core.Result {
 				store.Put(storeType, "s", world.NewCert(nil, world.CertOpts{CN: "unrelated-root", IsCA: true, PathLen: -1}).Cert)
 			case 2:
 				store.Fail[storeType+":s"] = true
+			case 3: // two listed stores: the anchor is in one, the other cannot be loaded
+				store.Put(storeType, "s", chain.Root().Cert)
+				store.Fail[storeType+":t"] = true
 			}
 			val := &world.ScriptedValidator{}
 			switch w["revocation"] {
@@ -273,7 +276,14 @@ func (l c02) Exec(env *core.Env) *core.Result {
 		for base := int64(0); base < 3; base++ {
 			levelName, override, enf := levelFromKnobs(base, w["bits"])
 			store, val, mgr, sp, sm := makeWorld()
-			v, err := buildVerifier(vcfg{level: levelName, override: override, stores: []string{storeType + ":s"}, identities: identities, store: store, validator: val, legacy: w["legacy"] == 1, mgr: mgr})
+			listedStores := []string{storeType + ":s"}
+			if w["anchor"] == 3 {
+				listedStores = append(listedStores, storeType+":t")
+				if w["bits"]%2 == 1 {
+					listedStores[0], listedStores[1] = listedStores[1], listedStores[0]
+				}
+			}
+			v, err := buildVerifier(vcfg{level: levelName, override: override, stores: listedStores, identities: identities, store: store, validator: val, legacy: w["legacy"] == 1, mgr: mgr})
 			if err != nil {
 				res.Violate("HARNESS/verifier", "", "%v", err)
 				return
